@@ -3,6 +3,7 @@ package main
 // Profile-specific request generation and side tables (lower-casing, tokens).
 
 import (
+	"math"
 	"sort"
 	"strings"
 
@@ -39,7 +40,221 @@ func (g *genState) reqsC01(docs map[uuid.UUID]Val) []requestSpec {
 	return out
 }
 
-func (g *genState) reqsC02(docs map[uuid.UUID]Val) []requestSpec { return nil }
+// C02: filter queries on every index: every operator, values drawn from what is
+// stored now, what was stored earlier (stale postings), neighbours and pools.
+func (g *genState) reqsC02(docs map[uuid.UUID]Val) []requestSpec {
+	r := g.r
+	var out []requestSpec
+	nq := 18 + r.IntN(10)
+	for len(out) < nq {
+		q, ok := g.genFilter(2)
+		if ok {
+			out = append(out, requestSpec{q: q})
+		}
+	}
+	return out
+}
+
+func (g *genState) filterIndexes() []idxSpec {
+	var out []idxSpec
+	for _, ix := range g.schema {
+		switch ix.kind {
+		case ixInt, ixFloat, ixStr, ixStrArr:
+			out = append(out, ix)
+		}
+	}
+	return out
+}
+
+func (g *genState) remember(path string, v Val) {
+	if g.old == nil {
+		g.old = map[string][]Val{}
+	}
+	if len(g.old[path]) < 64 {
+		g.old[path] = append(g.old[path], v)
+	}
+}
+
+// candidate values for a path: stored now, stored earlier, pool
+func (g *genState) candidates(ix idxSpec) []Val {
+	cands := append([]Val{}, g.storedAt(ix.path)...)
+	for _, v := range cands {
+		g.remember(ix.path, v)
+	}
+	cands = append(cands, g.old[ix.path]...)
+	return cands
+}
+
+func (g *genState) genLeaf() (querySpec, bool) {
+	r := g.r
+	ixs := g.filterIndexes()
+	if len(ixs) == 0 || r.IntN(12) == 0 {
+		// _id lookups
+		n := 1 + r.IntN(3)
+		ids := make([]uuid.UUID, n)
+		for i := range ids {
+			ids[i] = g.pool[r.IntN(len(g.pool))]
+		}
+		if n == 1 && r.IntN(2) == 0 {
+			return querySpec{kind: "ideq", ids: ids}, true
+		}
+		return querySpec{kind: "idany", ids: ids}, true
+	}
+	ix := ixs[r.IntN(len(ixs))]
+	cands := g.candidates(ix)
+	pickStored := func(k vkind) (Val, bool) {
+		var ok []Val
+		for _, c := range cands {
+			if c.K == k {
+				ok = append(ok, c)
+			}
+		}
+		if len(ok) == 0 || r.IntN(4) == 0 {
+			return Val{}, false
+		}
+		return ok[r.IntN(len(ok))], true
+	}
+	ops := []int{0, 1, 3, 4, 5, 6, 7}
+	switch ix.kind {
+	case ixInt:
+		op := ops[r.IntN(len(ops))]
+		v := g.genInt()
+		if c, ok := pickStored(kInt); ok {
+			v = c.I
+			switch r.IntN(4) {
+			case 0:
+				if v < math.MaxInt64 {
+					v++
+				}
+			case 1:
+				if v > math.MinInt64 {
+					v--
+				}
+			}
+		}
+		e := v
+		if op == 7 {
+			e = g.genInt()
+			if c, ok := pickStored(kInt); ok {
+				e = c.I
+			}
+			if e < v {
+				v, e = e, v
+			}
+			if e == v {
+				if e == math.MaxInt64 {
+					v--
+				} else {
+					e++
+				}
+			}
+		}
+		return querySpec{kind: "int", prop: ix.path, op: op, iv: v, ie: e}, true
+	case ixFloat:
+		op := ops[r.IntN(len(ops))]
+		v := g.genFloat()
+		if c, ok := pickStored(kF64); ok {
+			v = math.Float64frombits(c.Bits)
+			switch r.IntN(4) {
+			case 0:
+				v = math.Nextafter(v, math.Inf(1))
+			case 1:
+				v = math.Nextafter(v, math.Inf(-1))
+			}
+		}
+		e := v
+		if op == 7 {
+			e = g.genFloat()
+			if c, ok := pickStored(kF64); ok {
+				e = math.Float64frombits(c.Bits)
+			}
+			if e < v {
+				v, e = e, v
+			}
+			if e == v {
+				e = math.Nextafter(v, math.Inf(1))
+				if math.IsInf(v, 1) {
+					v = math.MaxFloat64
+					e = math.Inf(1)
+				}
+			}
+		}
+		return querySpec{kind: "float", prop: ix.path, op: op, fv: math.Float64bits(v), fe: math.Float64bits(e)}, true
+	case ixStr:
+		sops := []int{0, 1, 2, 3, 4, 5, 6, 7}
+		op := sops[r.IntN(len(sops))]
+		pick := func() string {
+			s := g.genStr()
+			if c, ok := pickStored(kStr); ok {
+				s = c.S
+				switch r.IntN(6) {
+				case 0:
+					s = strings.ToUpper(s)
+				case 1:
+					s = strings.ToLower(s)
+				case 2:
+					if len(s) > 1 {
+						s = s[:1+r.IntN(len(s)-1)]
+					}
+				case 3:
+					s = s + string([]byte{byte(r.IntN(3))})
+				}
+			}
+			if s == "" {
+				s = "a"
+			}
+			return s
+		}
+		v := pick()
+		e := ""
+		if op == 7 {
+			e = pick()
+			// the API requires endValue > value (byte order of the raw strings)
+			if e < v {
+				v, e = e, v
+			}
+			if e == v {
+				e = v + "\x00"
+			}
+		}
+		return querySpec{kind: "str", prop: ix.path, op: op, sv: v, se: e}, true
+	case ixStrArr:
+		op := 8 + r.IntN(2)
+		n := 1 + r.IntN(3)
+		vs := make([]string, n)
+		for i := range vs {
+			vs[i] = g.pick(tagPool)
+			if c, ok := pickStored(kArr); ok && len(c.A) > 0 {
+				e := c.A[r.IntN(len(c.A))]
+				if e.K == kStr {
+					vs[i] = e.S
+					if r.IntN(4) == 0 {
+						vs[i] = strings.ToUpper(vs[i])
+					}
+				}
+			}
+		}
+		return querySpec{kind: "strarr", prop: ix.path, op: op, svs: vs}, true
+	}
+	return querySpec{}, false
+}
+
+func (g *genState) genFilter(depth int) (querySpec, bool) {
+	r := g.r
+	if depth == 0 || r.IntN(3) > 0 {
+		return g.genLeaf()
+	}
+	n := 1 + r.IntN(3)
+	q := querySpec{kind: []string{"and", "or"}[r.IntN(2)]}
+	for i := 0; i < n; i++ {
+		s, ok := g.genFilter(depth - 1)
+		if !ok {
+			return querySpec{}, false
+		}
+		q.subs = append(q.subs, s)
+	}
+	return q, true
+}
 
 // lowerTable: strings.ToLower of every string at a case-insensitive indexed path
 // of the live documents and of every string in the requests.
@@ -110,5 +325,63 @@ func (g *genState) lowerTable(docs map[uuid.UUID]Val, reqs []requestSpec) string
 }
 
 func (g *genState) extraObs(env *shardEnv, docs map[uuid.UUID]Val, reqs []requestSpec) []string {
-	return nil
+	var out []string
+	if g.profile == "c01" || g.profile == "c10" {
+		if x, err := dumpPoints(env); err == nil {
+			out = append(out, x...)
+		} else {
+			out = append(out, "(XNote 902)")
+		}
+	}
+	return out
+}
+
+// dumpPoints records the points and internal buckets of the live shard.
+func dumpPoints(env *shardEnv) ([]string, error) {
+	keys, vals, err := env.sh.VerifDumpBucket("points")
+	if err != nil {
+		return nil, err
+	}
+	type kv struct{ k, v []byte }
+	var raws, datas []kv
+	for i := range keys {
+		k := keys[i]
+		if len(k) == 10 && k[0] == 'n' && k[9] == 'd' {
+			datas = append(datas, kv{k, vals[i]})
+		} else {
+			raws = append(raws, kv{k, vals[i]})
+		}
+	}
+	sort.Slice(raws, func(i, j int) bool { return string(raws[i].k) < string(raws[j].k) })
+	sort.Slice(datas, func(i, j int) bool { return string(datas[i].k) < string(datas[j].k) })
+	ri := make([]string, len(raws))
+	for i, e := range raws {
+		ri[i] = "(" + pB(e.k) + ", " + pB(e.v) + ")"
+	}
+	di := make([]string, len(datas))
+	for i, e := range datas {
+		v, err := decodeDoc(e.v)
+		if err != nil {
+			return nil, err
+		}
+		di[i] = "(" + pB(e.k) + ", " + v.docCoq() + ")"
+	}
+	ikeys, ivals, err := env.sh.VerifDumpBucket("internal")
+	if err != nil {
+		return nil, err
+	}
+	var ints []kv
+	for i := range ikeys {
+		ints = append(ints, kv{ikeys[i], ivals[i]})
+	}
+	sort.Slice(ints, func(i, j int) bool { return string(ints[i].k) < string(ints[j].k) })
+	ii := make([]string, len(ints))
+	for i, e := range ints {
+		ii[i] = "(" + pB(e.k) + ", " + pB(e.v) + ")"
+	}
+	return []string{
+		"(XBucket " + pS("points") + " " + pList(ri) + ")",
+		"(XDocs " + pS("points") + " " + pList(di) + ")",
+		"(XBucket " + pS("internal") + " " + pList(ii) + ")",
+	}, nil
 }
